@@ -47,7 +47,7 @@ var verifFS *verifFSState
 
 func verifFSReset() {
 	verifFS = &verifFSState{nodes: map[string]*verifNode{}, nextID: 100, lstatErr: map[string]syscall.Errno{},
-		newData: []byte(`{"NEW"}`)}
+		newData: []byte(`{"NEW-SNAPSHOT-OF-THE-CACHE-LONGER-THAN-A-SHORT-STALE-TEMP-FILE"}`)}
 	if verifSymbolic() {
 		// package os is not initialised by the engine
 		os.ErrNotExist = fs.ErrNotExist
@@ -256,3 +256,74 @@ func verifFSIdentity(path string) (uint64, bool) {
 	}
 	return st.Ino, true
 }
+
+// ---- handle-based file API (os.OpenFile / (*os.File).Write / Sync / Close):
+// the engine maps an *os.File to a model handle.
+
+type verifOpenFile struct {
+	node *verifNode
+	name string
+	off  int
+}
+
+var verifOpenFiles []*verifOpenFile
+
+func verifFSOpenFile(name string, flag int, perm fs.FileMode) (int, error) {
+	s := verifFS
+	if s.failOpen {
+		return -1, &os.PathError{Op: "open", Path: name, Err: syscall.EISDIR}
+	}
+	n, ok := s.nodes[name]
+	if !ok {
+		if flag&os.O_CREATE == 0 {
+			return -1, &os.PathError{Op: "open", Path: name, Err: syscall.ENOENT}
+		}
+		n = s.put(name, perm.Perm(), nil)
+		s.stepped("create " + name)
+	} else if n.mode.IsDir() {
+		return -1, &os.PathError{Op: "open", Path: name, Err: syscall.EISDIR}
+	}
+	if flag&(os.O_WRONLY|os.O_RDWR) != 0 {
+		s.writes = append(s.writes, name)
+	}
+	if flag&os.O_TRUNC != 0 {
+		n.data = nil
+		s.stepped("truncate " + name)
+	}
+	f := &verifOpenFile{node: n, name: name}
+	if flag&os.O_APPEND != 0 {
+		f.off = len(n.data)
+	}
+	verifOpenFiles = append(verifOpenFiles, f)
+	return len(verifOpenFiles) - 1, nil
+}
+
+func verifFSFileWrite(h int, data []byte) (int, error) {
+	s, f := verifFS, verifOpenFiles[h]
+	k := len(data)
+	if s.failWrite {
+		k = verifChoice("fs.partial", len(data)+1)
+	}
+	prev := f.node.data
+	head := prev
+	if f.off < len(prev) {
+		head = prev[:f.off]
+	}
+	var tail []byte
+	if f.off+k < len(prev) {
+		tail = prev[f.off+k:] // bytes of the old content beyond what is overwritten survive
+	}
+	buf := append([]byte(nil), head...)
+	buf = append(buf, data[:k]...)
+	buf = append(buf, tail...)
+	f.node.data = buf
+	f.off += k
+	s.stepped("write " + f.name)
+	if s.failWrite {
+		return k, &os.PathError{Op: "write", Path: f.name, Err: syscall.ENOSPC}
+	}
+	return k, nil
+}
+
+func verifFSFileSync(h int) error  { return nil }
+func verifFSFileClose(h int) error { return nil }
